@@ -1061,3 +1061,71 @@ TWINS += [
 MUTANTS += [
     {"name": "shape:quote-escaping-generator-forgets-backslash", "expect": "R6.2", "edits": _quote_gen('ch == \'"\'')},
 ]
+
+
+# ---- round 3b: the escaping as one str.translate over a table (module constant, local, inline; dict / maketrans forms) ----
+Q_ESC = Q_TAIL.split("\n\n")[-1]
+Q_DEF = "def quote_header_value(value: t.Any, allow_token: bool = True) -> str:\n"
+_ESC_OK = '{"\\\\": "\\\\\\\\", \'"\': \'\\\\"\'}'
+
+
+def _q_translate(table_stmt: str, arg: str, where: str = "module") -> list:
+    """quote_header_value escaping through value_str.translate(<arg>); the table bound at module level, in the
+    function, or not at all (inline)"""
+    body = f"    return f'\"{{value_str.translate({arg})}}\"'\n"
+    if where == "module":
+        return [(H, Q_DEF, table_stmt + "\n\n\n" + Q_DEF), (H, Q_ESC, body)]
+    if where == "local":
+        return [(H, Q_ESC, "    " + table_stmt + "\n" + body)]
+    return [(H, Q_ESC, body)]
+
+
+TWINS += [
+    {"name": "shape:quote-translate-module-maketrans-dict", "edits": _q_translate(f"_header_escapes = str.maketrans({_ESC_OK})", "_header_escapes")},
+    {"name": "shape:quote-translate-module-ord-dict", "edits": _q_translate("_header_escapes = {ord(\"\\\\\"): \"\\\\\\\\\", ord('\"'): '\\\\\"'}", "_header_escapes")},
+    {"name": "shape:quote-translate-module-maketrans-dictcomp", "edits": _q_translate("_header_escapes = str.maketrans({special: \"\\\\\" + special for special in '\"\\\\'})", "_header_escapes")},
+    {"name": "shape:quote-translate-local-maketrans", "edits": _q_translate(f"escapes = str.maketrans({_ESC_OK})", "escapes", "local")},
+    {"name": "shape:quote-translate-inline-maketrans", "edits": _q_translate("", f"str.maketrans({_ESC_OK})", "inline")},
+    {"name": "shape:quote-translate-maketrans-three-strings-nothing-deleted", "edits": _q_translate("_nothing = str.maketrans(\"\", \"\", \"\")", "_nothing", "module")[:1] + [(H, Q_ESC, Q_ESC.replace("value_str = value_str.replace(", "value_str = value_str.translate(_nothing).replace("))]},
+    {"name": "shape:quote-translate-inline-dictcomp", "edits": _q_translate("", "{ord(special): \"\\\\\" + special for special in '\"\\\\'}", "inline")},
+    {"name": "shape:quote-join-table-get-per-character", "edits": [(H, Q_DEF, f"_qs_escape_of = {_ESC_OK}\n\n\n" + Q_DEF), (H, Q_ESC, "    return '\"' + \"\".join(_qs_escape_of.get(ch, ch) for ch in value_str) + '\"'\n")]},
+    {"name": "shape:quote-merged-guard-translate-assignment", "edits": [(H, Q_DEF, f"_qs_escapes = str.maketrans({_ESC_OK})\n\n\n" + Q_DEF), (H, Q_TAIL, "    if allow_token and _token_chars.issuperset(value_str):\n        return value_str\n\n    escaped = value_str.translate(_qs_escapes)\n    return '\"' + escaped + '\"'\n")]},
+]
+MUTANTS += [
+    {"name": "shape:quote-translate-table-forgets-backslash", "expect": "R6.2", "edits": _q_translate("_header_escapes = str.maketrans({'\"': '\\\\\"'})", "_header_escapes")},
+    {"name": "shape:quote-translate-table-escapes-slash-not-backslash", "expect": "R6.2", "edits": _q_translate("_header_escapes = {ord(\"/\"): \"\\\\\\\\\", ord('\"'): '\\\\\"'}", "_header_escapes")},
+    {"name": "shape:quote-translate-table-rewrites-tab-as-letter", "expect": "R6.2", "edits": _q_translate("_header_escapes = str.maketrans({\"\\\\\": \"\\\\\\\\\", '\"': '\\\\\"', \"\\t\": \"\\\\t\"})", "_header_escapes")},
+    {"name": "shape:quote-translate-two-strings-quote-to-apostrophe", "expect": "R6.2", "edits": _q_translate("_header_escapes = str.maketrans('\"\\\\', \"'/\")", "_header_escapes")},
+    {"name": "shape:quote-translate-three-strings-deletes-specials", "expect": "R6.2", "edits": _q_translate("_header_escapes = str.maketrans(\"\", \"\", '\"\\\\')", "_header_escapes")},
+    {"name": "shape:quote-translate-inline-table-doubles-quote", "expect": "R6.2", "edits": _q_translate("", "str.maketrans({\"\\\\\": \"\\\\\\\\\", '\"': '\"\"'})", "inline")},
+    {"name": "shape:quote-translate-local-table-forgets-quote", "expect": "R6.2", "edits": _q_translate("escapes = str.maketrans({\"\\\\\": \"\\\\\\\\\"})", "escapes", "local")},
+]
+
+_IMP_R = (R, "import collections.abc as cabc\n", "import collections.abc as cabc\nimport itertools\n")
+_IMP_E = (E, "from __future__ import annotations\n", "from __future__ import annotations\n\nimport itertools\n")
+
+
+def _range_starmap(last: str) -> list:
+    return [_IMP_R, (R, RANGE_TO, f'''        ranges = itertools.starmap(
+            lambda begin, end: (f"{{begin}}-" if begin >= 0 else str(begin)) if end is None else f"{{begin}}-{{{last}}}",
+            self.ranges,
+        )
+        return f"{{self.units}}={{','.join(ranges)}}"
+''')]
+
+
+def _etags_chain(weak: str) -> list:
+    return [_IMP_E, (E, ETAGS_TO.split("\n")[1], f"            itertools.chain((f'\"{{x}}\"' for x in self._strong), ({weak} for x in self._weak))")]
+
+
+TWINS += [
+    {"name": "shape:range-writer-starmap-lambda", "edits": _range_starmap("end - 1")},
+    {"name": "shape:etags-writer-chain-of-generators", "edits": _etags_chain("f'W/\"{x}\"'")},
+    {"name": "shape:etags-writer-chain-from-iterable", "edits": [_IMP_E, (E, ETAGS_TO.split("\n")[1], "            itertools.chain.from_iterable(([f'\"{x}\"' for x in self._strong], [f'W/\"{x}\"' for x in self._weak]))")]},
+    {"name": "shape:headerset-writer-map-lambda", "edits": [(S, HS_TO, 'return ", ".join(map(lambda item: http.quote_header_value(item), self._headers))')]},
+]
+MUTANTS += [
+    {"name": "shape:range-writer-starmap-lambda-no-offset", "expect": "R6.4", "edits": _range_starmap("end")},
+    {"name": "shape:etags-writer-chain-weak-without-slash", "expect": "R6.5", "edits": _etags_chain("f'W\"{x}\"'")},
+    {"name": "shape:headerset-writer-map-lambda-unquoted", "expect": "R6.5", "edits": [(S, HS_TO, 'return ", ".join(map(lambda item: str(item), self._headers))')]},
+]
